@@ -124,10 +124,10 @@ def check(run, replay=None):
     if replay is not None:
         hists = [replay["history"]]
     else:
-        L = 6 if tier == "quick" else 8
+        L = 6 if tier == "quick" else 7
         hists = exhaustive(L)
         nex = len(hists)
-        hists += random_histories(rng, 300 if tier == "quick" else 6000, 120 if tier == "quick" else 200)
+        hists += random_histories(rng, 300 if tier == "quick" else 12000, 120 if tier == "quick" else 200)
         corpus = os.path.join(C.VERIF, "corpus", CID)
         if os.path.isdir(corpus):
             for f in sorted(os.listdir(corpus)):
@@ -193,7 +193,7 @@ def check(run, replay=None):
     cov["rule"] = ("histories over R1/R<n>/U<k>/N; exhaustive: every history of length %s over sizes {1,2,3} with <=5 live blocks, "
                    "each step compared in two modes (direct API, real adouble/aVector objects); random: structured styles "
                    "(stack-like, free-middle, grow-gap, exact-fit, mixed). Non-trivial = some step has a non-empty gap list (a slot is released out of order)."
-                   % ("6 (quick)" if tier == "quick" else "8 (thorough)"))
+                   % ("6 (quick)" if tier == "quick" else "7 (thorough)"))
     cov["exhaustive"] = replay is None
     cov["samples"] = [{"history": h[:200], "model_and_impl": m[:400]} for h, m in list(zip(hists, mo))[-2:]] + [{"history": hists[len(hists)//2], "model_and_impl": mo[len(hists)//2]}]
     cov["traces_validated_against_impl"] = cov["evaluations"]
